@@ -91,6 +91,8 @@ type Part struct {
 	// Witness inputs of the refutation lemmas: flag name -> index into the generated inputs is not stable, so a
 	// witness is an Input of its own; flag = true when the implementation neither panics nor exceeds the budget.
 	Witnesses func(seeds []Seed) map[string]Input
+	// FlagOf (optional) overrides how a witness result becomes a flag (default: no panic, no death, within budget).
+	FlagOf func(name string, r *Result, def bool) bool
 	VmemKB    uint64 // ulimit -v for the child (default 4 GiB)
 	PerInput  time.Duration
 }
@@ -328,6 +330,9 @@ func Run(t *testing.T, p *Part) {
 	for wi, name := range wnames {
 		r := results[wi]
 		good := r != nil && (r.Class == "ok" || r.Class == "error") && r.Alloc <= p.Budget(&ins[wi])
+		if p.FlagOf != nil && r != nil {
+			good = p.FlagOf(name, r, good)
+		}
 		flags[name] = good
 		rep.Flag(name, good)
 	}
